@@ -69,7 +69,11 @@ func histReplay(w *apiWorld, ctl *seqCtl, path []HistStep) (string, *chooser) {
 func keptModified(kept []keptResult, upto int) []string {
 	var bad []string
 	for i := 0; i < upto && i < len(kept); i++ {
-		if k := kept[i]; string(k.raw) != k.snap {
+		if k := kept[i]; k.err != nil {
+			if now := k.err.Error(); now != k.etxt {
+				bad = append(bad, fmt.Sprintf("the error returned earlier by %s read %q when it was returned and reads %q now (an error value must not point into state that later calls reuse)", k.call, clip(k.etxt, 200), clip(now, 200)))
+			}
+		} else if string(k.raw) != k.snap {
 			bad = append(bad, fmt.Sprintf("the result returned earlier by %s was %q and now reads %q", k.call, clip(k.snap, 120), clip(string(k.raw), 120)))
 		}
 	}
